@@ -198,6 +198,9 @@ pub enum Damage {
     TruncFraming(usize),
     /// one bit of the 8-byte gzip trailer is flipped
     TrailerFlip(usize),
+    /// the compressed stream is all there, the HTTP framing around it is not: a chunked body without
+    /// its final chunk, a Content-Length that announces five more bytes than arrive
+    FramingOnly,
 }
 
 #[derive(Clone, Copy, Debug, PartialEq, Eq, Serialize, Deserialize)]
@@ -312,6 +315,10 @@ fn build_wire(c: &Case, s: &Stream) -> (Vec<u8>, Vec<u8>, bool) {
         Damage::TrailerFlip(bit) => {
             let n = data.len();
             data[n - 8 + bit / 8] ^= 1 << (bit % 8);
+            damaged = true;
+        }
+        Damage::FramingOnly => {
+            framing_len = data.len() + 5;
             damaged = true;
         }
     }
@@ -484,6 +491,7 @@ fn judge(c: &Case, s: &Stream) -> (String, Option<(String, String)>) {
             v(
                 match c.damage {
                     Damage::TrailerFlip(_) => "integrity-failure-read-as-complete",
+                    Damage::FramingOnly => "cut-framing-read-as-complete",
                     _ => "truncation-read-as-complete",
                 },
                 format!("the damaged stream was read to a clean end of body ({} bytes delivered, payload {})", b.len(), s.payload.len()),
@@ -624,6 +632,17 @@ fn cases_for(s: &Stream, tier: Tier) -> Vec<Case> {
                     c.status = status;
                     v.push(c);
                 }
+            }
+        }
+    }
+    // the coded stream is complete, the framing around it is cut short
+    for framing in [Framing::Length, Framing::Chunked] {
+        for p in [Policy::default(), Policy { cuts: vec![], uniform: Some(1) }, Policy { cuts: vec![], uniform: Some(7) }] {
+            if s.data.len() > 100_000 && p.uniform == Some(1) {
+                continue;
+            }
+            for r in reads.iter().copied() {
+                v.push(mk(framing, 0, p.clone(), r, Damage::FramingOnly));
             }
         }
     }
